@@ -14,7 +14,7 @@ RULE = ("pairs of blackbox-free lint-clean circuits (copy / self / reference-sid
         "unrelated sharing io names) x startpoint and endpoint subsets; distinct = canonical pair + subsets; "
         "non-trivial = at least one compared endpoint depends on a tied startpoint")
 PROBES = ["single_endpoint", "untied_startpoint", "pair:restructured", "pair:mutated", "pair:self", "pair:copy",
-          "pair:unrelated", "pair:cut", "differs_rarely", "equivalent", "different", "repeated_call_same_objects", "no_common_endpoint", "tie_nothing"]
+          "pair:unrelated", "pair:cut", "pair:empty", "differs_rarely", "equivalent", "different", "repeated_call_same_objects", "no_common_endpoint", "tie_nothing"]
 ASSUMPTIONS = ["<= 5 shared + <= 2 private startpoints per side, <= 12 gates per circuit",
                "node names do not start with c0_/c1_/dif_ and are not 'sat' (default naming)"]
 
@@ -140,6 +140,8 @@ def gen(rng, tier):
         if rng.random() < 0.5:
             priv = [n for n in ref.inputs(c1) if n not in c0["nodes"]]
             _ = priv
+    if rng.random() < 0.02:
+        kind, c1 = "empty", {"name": "nothing", "nodes": {}, "bbs": {}}     # a circuit without any node as second operand
     other = c1 if c1 is not None else c0
     sp_shared = sorted(set(ref.startpoints(c0)) & set(ref.startpoints(other)))
     ep_shared = sorted(set(ref.outputs(c0)) & set(ref.outputs(other)))
